@@ -91,6 +91,9 @@ def run(tier, seed):
                 used = raw[: frames * F].tobytes()
                 want = np.frombuffer(used, dtype="<i2" if bf == "01" else ">i2").astype(np.int16)
                 dtype_arg = None
+                if k % 5 == 1:  # a requested dtype is a final cast of the decoded samples, whatever its width
+                    dtype_arg = (np.int8, np.float32, np.int64)[(k // 5) % 3]
+                    want = want.astype(dtype_arg)
             else:
                 nchan, coding = F, ("ulaw", "alaw")[k % 2]
                 hdr = sph_util.header(nchan, promised, 1, "1", coding, (1024, 2048)[(k // 2) % 2])
